@@ -22,15 +22,18 @@ def oracle_timers(tr, status, actions):
     """C10 over one trace.  actions: [(kind, msg id, ticks)] registered by started (in this order => task1, task2, ...)"""
     v = []
     ot = _owner_and_time(tr)
-    term = next((i for i, e in enumerate(tr) if (e[0] == 'task_done' and e[1] == 'loop') or (e[0] == 'task_killed' and e[1] == 'loop')), None)
+    term = next((i for i, e in enumerate(tr) if e[0] in ('task_done', 'task_killed', 'task_panicked') and e[1] == 'loop'), None)
     spawned = [e[1] for e in tr if e[0] == 'spawn']
     reg_time = {}
+    reg_index = {}
     k = 0
     for i, e in enumerate(tr):
         if e[0] == 'timer_registered':
             if k < len(spawned):
                 reg_time[spawned[k]] = (e[1], e[2], e[3], e[4])
+                reg_index[spawned[k]] = i
             k += 1
+    t_end = ot[-1][1] if ot else 0
     for task, (kind, mid, ticks, t0) in reg_time.items():
         pushes = [(i, ot[i][1], e[3]) for i, e in enumerate(tr) if e[0] == 'chan_push' and ot[i][0] == task]
         ok = [(i, t) for (i, t, r) in pushes if r == 'ok']
@@ -56,6 +59,14 @@ def oracle_timers(tr, status, actions):
                     v.append(f"delayed_exec({ticks}) ran at {t}, before its delay elapsed")
                 if term is not None and i > term:
                     v.append("delayed_exec ran after the actor had terminated")
+        if kind in ('interval', 'interval_with'):
+            # liveness: the timer of a live incarnation keeps running - its task ends only with the actor or a restart
+            r = reg_index[task]
+            restarted = next((i for i, e in enumerate(tr) if i > r and e[0] == 'refresh_call'), None)
+            stop_like = next((i for i, e in enumerate(tr) if i > r and ((e[0] == 'chan_pop' and str(e[2]) in ('Stop',)) or e[0] == 'chan_receiver_dropped'
+                                                                         or (e[0] == 'user_call' and e[1] == 'stopped'))), None)
+            if status == 'quiescent' and term is None and restarted is None and stop_like is None and t_end >= t0 + ticks and not ok and not any(r2 != 'ok' for (_, _, r2) in pushes):
+                v.append(f"{kind}({ticks}) registered at {t0} delivered nothing by time {t_end} on a live actor")
         if term is not None:
             late = [i for (i, t) in ok if i > term]
             if late:
@@ -64,6 +75,18 @@ def oracle_timers(tr, status, actions):
             done = any(e[0] == 'task_done' and e[1] == task for e in tr)
             if not done:
                 v.append(f"{kind} timer task still alive although the actor terminated and the system is quiescent (leaked)")
+    # a timer task is aborted only because its incarnation ends: between its registration and its abort there must be a
+    # restart request being served, the stopped() callback, or a failure of the actor
+    created = {e[1]: i for i, e in enumerate(tr) if e[0] == 'abortable_new'}
+    for a, e in enumerate(tr):
+        if e[0] == 'abort' and e[1] in created:
+            c = created[e[1]]
+            legit = any((x[0] in ('refresh_call', 'task_killed', 'user_panic', 'unwind_from', 'user_abandoned', 'panic'))
+                        or (x[0] == 'user_call' and x[1] == 'stopped')
+                        or (x[0] == 'user_done' and x[1] == 'started' and str(x[4]) != 'ok')
+                        or (x[0] == 'task_done' and x[1] == 'loop') for x in tr[c:a])
+            if not legit:
+                v.append("a timer was aborted although the incarnation that registered it neither stopped, restarted nor failed")
     # ticks handled after termination is impossible by construction; idle exactness: on an idle actor k deliveries after k periods
     return v
 
